@@ -5,13 +5,31 @@
 //           <=3 routes per state (event|any, target incl. terminal, guard in {none,true,false,flip-flop}),
 //           optional per-state handlers (one for a specific event, one for "any"; return -1 or an existing
 //           target), optional sub-machine per state (tree, nesting depth <= Dmax), optional explicit
-//           setInitState.  weight = #states + #routes + #guards + #handlers + [explicit init] + [terminal
-//           defined] + weight of every sub-machine.  Canonical form: all states reachable from the initial
-//           state and numbered in discovery order; first specific event mentioned is event 1.
+//           setInitState(1) (states then registered in descending order), and two one-state machines whose
+//           initial state does not exist (setInitState(7); setInitState(0) without a state 0): start() must
+//           fail, as top machine and as sub-machine.  weight = #states + #routes + #guards + #handlers +
+//           [explicit init] + [terminal defined] + weight of every sub-machine.  Canonical form: all states
+//           reachable from the initial state and numbered in discovery order; first specific event is event 1.
+//           Every run() carries a payload pointer (Event::extra); every token records whether it arrived.
+// LANES     (environment, one per process group; see check.py)
+//           C16_TERM_LATE    terminal state 0 and setInitState issued AFTER states/routes/handlers
+//           C16_BAD_HANDLER  declining handlers return 9 (names no state) instead of -1
+//           C16_NULLS=1|2|3  enter/exit/route actions and the state-changed callback are nullptr / not set
+//                            (1,2: complementary halves by parity; 3: all of them)
+//           C16_TWO_PHASE    states only; start();stop() on every machine; then terminal state, routes,
+//                            handlers, sub-machines, setInitState, callback (definition continues after a run)
+//           C16_ENUM         every definition call, run() and observer goes through the templated enum overloads
+//           C16_TWO_HANDLERS a state with a handler for event e also has a declining handler for the other event
 // HISTORIES per machine, breadth-first over call sequences {start, run(1), run(2), stop, restart} x
-//           {plain, every action of the machine issues <inner call> on its own machine} (30 ops), depth L,
-//           deduplicated on the implementation's complete state (read through the public observers of every
-//           machine of the hierarchy + guard flip-flop parity + enter/exit ledger).
+//           {plain, every action of the machine issues <inner call> on its own machine; inner calls are the five
+//           life-cycle calls and "newState/addRoute/addEvent/setSubStateMachine with valid arguments"} + the op
+//           "definition calls the reference rejects in any phase" (duplicate newState, unknown from/to state,
+//           routes/handlers/sub-machine on a state 0 that was never created) on every machine (35 ops), depth L,
+//           deduplicated on the observers of every machine of the hierarchy + guard flip-flop parity + ledger.
+//           The same must-fail definition calls are issued once after every build.
+//           EPILOGUE: every evaluated history (also the deduplicated and the depth-limit ones) is followed by
+//           restart; stop on the real hierarchy and the reference, judged by all oracles (hidden state that the
+//           key cannot see must not change the future; the ledger is judged for every history).
 // ORACLE    (1) reference interpreter (struct Ref) step by step: identical trace of guard evaluations,
 //           handler calls, exit/route/enter actions, state-changed notifications (each token carries the
 //           event id and currentState/lastState/nextState/isRunning/isTerminated as seen INSIDE the action),
@@ -20,7 +38,8 @@
 //           (2) enter/exit ledger computed from the REAL trace alone: whenever the outermost machine is
 //           stopped (also in the middle of restart()) every entered state has been exited exactly once;
 //           never an exit without enter;
-//           (3) re-entrant calls return false, emit nothing and leave all five observers unchanged.
+//           (3) re-entrant calls return false, emit nothing and leave all five observers unchanged;
+//           (4) definition calls the reference rejects return false (and, by (1), change nothing).
 //
 // Readings (DESIGN.md 1.7 + pinned tests state_machine_test.cpp), each mirrored in struct Ref:
 //   R1 handler result -1 = "no transition decided": routes are still scanned (InnerEvent);
@@ -33,7 +52,7 @@
 //   R5 lastState() survives stop()/start() (header silent; not demanded otherwise): Ref mirrors the code.
 //   R6 self transitions are external (exit + enter).
 //
-// argv: <part> <nparts> <machine cap> <seq depth> <max nesting depth> [<file for trace hashes>|-] [flat]
+// argv: <part> <nparts> <machine cap> <seq depth> <max nesting depth> [<file for trace hashes>|-] [flat|deep]   (deep: only machines of nesting depth 3)
 //       merge <hash files...>   (prints the number of distinct trace hashes over all processes)
 #include "hist/hist.h"
 #include <tbox/flow/state_machine.h>
@@ -51,7 +70,7 @@ using tbox::flow::StateMachine;
 // machine definitions
 struct RouteD { int8_t ev, to, guard; };            // ev 0=any,1,2; to 0..n; guard 0 none,1 true,2 false,3 flip-flop (false first)
 struct StateD { uint8_t nr; RouteD r[3]; int8_t h_any; /* -2 none, else result -1..n */ int8_t h_ev; /* 0 none, 1, 2 */ int8_t h_ret; int32_t sub; };
-struct MachD { uint8_t n, init_explicit, term_def, weight, depth; StateD st[3]; };
+struct MachD { uint8_t n, init_explicit /* 0 none, 1 setInitState(1), 2 setInitState(7): no such state, 3 setInitState(0) without a state 0 */, term_def, weight, depth; StateD st[3]; };
 static std::vector<MachD> TAB;            // every canonical machine, grouped by weight
 static std::vector<size_t> LEVEL_BEGIN;   // TAB index where weight w starts (index w)
 static int DMAX = 2;
@@ -111,15 +130,17 @@ static void gen_state(MachD &m, int s, int budget) {
   gen_routes(m, s, 0, budget);
 }
 static std::string shape(const MachD &m) {     // structure without labels (used to interleave a partially covered level)
-  std::string k; k += char('0' + m.depth); k += char('0' + m.n); k += m.init_explicit ? 'i' : '-'; k += m.term_def ? 't' : '-';
+  std::string k; k += char('0' + m.depth); k += char('0' + m.n); k += char('0' + m.init_explicit); k += m.term_def ? 't' : '-';
   for (int s = 0; s < m.n; s++) { const StateD &S = m.st[s]; int ng = 0; for (int i = 0; i < S.nr; i++) ng += S.r[i].guard != 0;
     k += '['; k += char('0' + S.nr); k += char('0' + ng); k += S.h_ev ? 'h' : '-'; k += S.h_any != -2 ? 'H' : '-'; if (S.sub >= 0) k += shape(TAB[S.sub]); k += ']'; }
   return k;
 }
 static void gen_level(int w) {
   g_out.clear();
-  for (int n = 1; n <= 3; n++) for (int ie = 0; ie <= (n >= 2 ? 1 : 0); ie++) for (int td = 0; td <= 1; td++) {
-    int budget = w - n - ie - td; if (budget < 0) continue;
+  for (int n = 1; n <= 3; n++) for (int ie = 0; ie <= 3; ie++) for (int td = 0; td <= 1; td++) {
+    if (ie == 1 && n < 2) continue;                       // setInitState(1) only says something when another state is registered first
+    if (ie >= 2 && n != 1) continue; if (ie == 3 && td) continue;   // machines that cannot start: one (unreachable) state, nothing else
+    int budget = w - n - (ie ? 1 : 0) - td; if (budget < 0) continue; if (ie >= 2 && budget != 0) continue;
     MachD m; memset(&m, 0, sizeof m); m.n = n; m.init_explicit = ie; m.term_def = td; m.weight = w;
     for (int s = 0; s < 3; s++) { m.st[s].h_any = -2; m.st[s].h_ret = -1; m.st[s].sub = -1; }
     gen_state(m, 0, budget);
@@ -132,7 +153,8 @@ static void gen_level(int w) {
     for (auto &g : groups) if (round < g.second.size()) { TAB.push_back(g_out[g.second[round]]); left--; }
 }
 static std::string show_mach(const MachD &m) {
-  std::string s = "M{"; if (m.init_explicit) s += "setInit(1),regorder=desc;"; if (m.term_def) s += "term0-defined;";
+  std::string s = "M{"; if (m.init_explicit == 1) s += "setInit(1),regorder=desc;"; if (m.init_explicit == 2) s += "setInit(7):no-such-state;"; if (m.init_explicit == 3) s += "setInit(0):state0-never-created;";
+  if (m.term_def) s += "term0-defined;";
   for (int i = 0; i < m.n; i++) { const StateD &S = m.st[i]; s += " S" + std::to_string(i + 1) + ":";
     for (int k = 0; k < S.nr; k++) { s += " "; s += S.r[k].ev ? "e" + std::to_string(S.r[k].ev) : "*"; s += ">" + std::to_string(S.r[k].to);
       if (S.r[k].guard) s += S.r[k].guard == 1 ? "[T]" : S.r[k].guard == 2 ? "[F]" : "[flip]"; }
@@ -144,18 +166,56 @@ static std::string show_mach(const MachD &m) {
 }
 
 // ------------------------------------------------------------------------------------------------
+// lanes (see the head of this file)
+static int L_NULLS = 0; static bool L_TERM_LATE = false, L_BAD_HANDLER = false, L_TWO_PHASE = false, L_ENUM = false, L_TWO_H = false;
+static void read_lanes() {
+  if (getenv("C16_NULLS")) L_NULLS = atoi(getenv("C16_NULLS"));
+  L_TERM_LATE = getenv("C16_TERM_LATE") != nullptr; L_BAD_HANDLER = getenv("C16_BAD_HANDLER") != nullptr; L_TWO_PHASE = getenv("C16_TWO_PHASE") != nullptr;
+  L_ENUM = getenv("C16_ENUM") != nullptr; L_TWO_H = getenv("C16_TWO_HANDLERS") != nullptr;
+  if (L_BAD_HANDLER && L_TWO_H) { printf("@VIOL sig=harness-lanes-not-combinable :: C16_BAD_HANDLER with C16_TWO_HANDLERS\n"); exit(0); }
+}
+static std::string lanes_text() { std::string s; if (L_TERM_LATE) s += " term+init-late"; if (L_BAD_HANDLER) s += " bad-handler"; if (L_NULLS) s += " nulls=" + std::to_string(L_NULLS); if (L_TWO_PHASE) s += " two-phase";
+  if (L_ENUM) s += " enum-overloads"; if (L_TWO_H) s += " two-handlers"; return s.empty() ? " main" : s; }
+// which callbacks of the definition are nullptr / not set in this lane (decided by the harness, used by the builder and the reference)
+static bool null_hook(int k, char kind, int st, int rt) {
+  if (L_NULLS == 0 || kind == 'g' || kind == 'h') return false;
+  if (L_NULLS >= 3) return true;
+  int odd = L_NULLS == 1 ? 1 : 0;
+  if (kind == 'n') return ((st + k) & 1) == odd;          // lane 1: the initial state of the outermost machine has no enter action
+  if (kind == 'x') return ((st + k) & 1) != odd;
+  if (kind == 'a') return ((rt + st) & 1) == odd;
+  return (k & 1) != odd;                                  // 'c': lane 1: the outermost machine has no state-changed callback
+}
+
+// the templated enum overloads of state_machine.h (lane C16_ENUM) - same calls, same meaning
+enum class St : int {}; enum class Ev : int {};
+static int g_cookie;                                       // payload of every run(): Event::extra == &g_cookie
+static bool NS(StateMachine *m, int s, const StateMachine::ActionFunc &en, const StateMachine::ActionFunc &ex) { return L_ENUM ? m->newState(static_cast<St>(s), en, ex) : m->newState(s, en, ex); }
+static bool AR(StateMachine *m, int f, int e, int t, const StateMachine::GuardFunc &g, const StateMachine::ActionFunc &a) { return L_ENUM ? m->addRoute(static_cast<St>(f), static_cast<Ev>(e), static_cast<St>(t), g, a) : m->addRoute(f, e, t, g, a); }
+static bool AE(StateMachine *m, int s, int e, const StateMachine::EventFunc &f) { return L_ENUM ? m->addEvent(static_cast<St>(s), static_cast<Ev>(e), f) : m->addEvent(s, e, f); }
+static void SI(StateMachine *m, int s) { if (L_ENUM) m->setInitState(static_cast<St>(s)); else m->setInitState(s); }
+static bool SS(StateMachine *m, int s, StateMachine *sub) { return L_ENUM ? m->setSubStateMachine(static_cast<St>(s), sub) : m->setSubStateMachine(s, sub); }
+static bool RUN(StateMachine *m, int e) { return L_ENUM ? m->run(Event(static_cast<Ev>(e), &g_cookie)) : m->run(Event(e, &g_cookie)); }
+static int CUR(const StateMachine *m) { return L_ENUM ? static_cast<int>(m->currentState<St>()) : m->currentState(); }
+static int LAST(const StateMachine *m) { return L_ENUM ? static_cast<int>(m->lastState<St>()) : m->lastState(); }
+static int NEXT(const StateMachine *m) { return L_ENUM ? static_cast<int>(m->nextState<St>()) : m->nextState(); }
+
+// ------------------------------------------------------------------------------------------------
 // one instantiated hierarchy: nodes in pre-order, node 0 = outermost machine
 struct Node { int def, parent, depth; int sub[4]; };
 struct Hook { int node; char kind; int state, route; };   // kind n enter, x exit, a route action, g guard, h handler, c changed
-enum { START, RUN1, RUN2, STOP, RESTART };
-static const char *CALLN[] = {"start", "run(1)", "run(2)", "stop", "restart"};
-static const char *KINDN(char k) { return k == 'n' ? "enter" : k == 'x' ? "exit" : k == 'a' ? "route" : k == 'g' ? "guard" : k == 'h' ? "handler" : "changed"; }
+struct HookIdx { int en[4], ex[4], g[4][3], a[4][3], hs[4], ha[4], h2[4]; };   // indices into G.hooks per machine (state 0..3)
+enum { START, RUN1, RUN2, STOP, RESTART, DEFBAD };        // DEFBAD: definition calls the reference rejects in every phase, on every machine
+enum { RDEF = 5 };                                          // inner call kind 5: newState/addRoute/addEvent/setSubStateMachine with valid arguments
+static const char *CALLN[] = {"start", "run(1)", "run(2)", "stop", "restart", "rejected-definition-calls"};
+static const char *REENTN[] = {"start", "run(1)", "run(2)", "stop", "restart", "newState/addRoute/addEvent/setSubStateMachine"};
+static const char *KINDN(char k) { return k == 'n' ? "enter" : k == 'x' ? "exit" : k == 'a' ? "route" : k == 'g' ? "guard" : k == 'h' ? "handler" : k == 'G' ? "action-of-a-rejected-definition" : "changed"; }
 struct Op { int call, reent; };   // reent: -1 none, else inner call issued from every action on its own machine
 
 struct Ctx {
-  std::vector<Node> nodes; std::vector<Hook> hooks;
-  std::vector<StateMachine *> sm;
-  std::string tr; int reent = -1, reent_depth = 0; std::string reent_viol, balance_viol; bool in_restart = false;
+  std::vector<Node> nodes; std::vector<Hook> hooks; std::vector<HookIdx> hidx;
+  std::vector<StateMachine *> sm; StateMachine *spare = nullptr;
+  std::string tr; int reent = -1, reent_depth = 0; std::string reent_viol, balance_viol; bool in_restart = false, prelude = false;
   int cnt[16][4]; uint8_t flip_real[16][4][3], flip_ref[16][4][3];
 } G;
 
@@ -164,75 +224,125 @@ static void add_nodes(int def, int parent, int depth) {
   for (int s = 1; s <= TAB[def].n; s++) if (TAB[def].st[s - 1].sub >= 0) { int c = (int)G.nodes.size(); add_nodes(TAB[def].st[s - 1].sub, k, depth + 1); G.nodes[k].sub[s] = c; }
 }
 static void put_int(std::string &s, int v) { if (v < 0) { s += '-'; v = -v; } s += char('0' + v); }
-static void token(int node, char kind, int st, int rt, int ev, int cur, int last, int next, bool run, bool term) {
+// payload mark: '+' = the payload pointer of run() arrived, nothing = no payload (start/stop pass Event()), '?' = some other pointer
+static void token(int node, char kind, int st, int rt, int ev, char payload, int cur, int last, int next, bool run, bool term) {
   std::string &s = G.tr; s += char('a' + node); s += kind; put_int(s, st); if (rt >= 0 || kind == 'c') { s += kind == 'c' ? '>' : '.'; put_int(s, rt); }
-  s += '/'; put_int(s, ev); s += '('; put_int(s, cur); s += ','; put_int(s, last); s += ','; put_int(s, next); s += run ? 'R' : 'S'; if (term) s += 'T'; s += ')';
+  s += '/'; put_int(s, ev); if (payload) s += payload; s += '('; put_int(s, cur); s += ','; put_int(s, last); s += ','; put_int(s, next); s += run ? 'R' : 'S'; if (term) s += 'T'; s += ')';
 }
-static std::string obs_real(int k) { StateMachine *m = G.sm[k]; std::string s; put_int(s, m->currentState()); s += ','; put_int(s, m->lastState()); s += ','; put_int(s, m->nextState()); s += m->isRunning() ? 'R' : 'S'; if (m->isTerminated()) s += 'T'; return s; }
+static std::string obs_real(int k) { StateMachine *m = G.sm[k]; std::string s; put_int(s, CUR(m)); s += ','; put_int(s, LAST(m)); s += ','; put_int(s, NEXT(m)); s += m->isRunning() ? 'R' : 'S'; if (m->isTerminated()) s += 'T'; return s; }
 static bool ledger_zero(std::string *what) { bool z = true; for (size_t k = 0; k < G.nodes.size(); k++) for (int s = 0; s < 4; s++) if (G.cnt[k][s] != 0) { z = false; if (what) { *what += " m"; *what += char('a' + k); *what += ".S" + std::to_string(s) + ":" + std::to_string(G.cnt[k][s]); } } return z; }
+// the ledger counts the states that have both an enter and an exit action (all of them outside the C16_NULLS lanes)
+static bool ledgered(int k, int st) { return !null_hook(k, 'n', st, -1) && !null_hook(k, 'x', st, -1); }
+
+// callbacks handed to definition calls that must be rejected: if one ever runs, the trace shows it
+static StateMachine::ActionFunc ghost_action(int node) { return [node](Event) { G.tr += char('a' + node); G.tr += "G-action-of-a-rejected-definition-call-ran "; }; }
+static StateMachine::EventFunc ghost_handler(int node) { return [node](Event) { G.tr += char('a' + node); G.tr += "G-handler-of-a-rejected-definition-call-ran "; return 1; }; }
+// Definition calls the reference rejects whatever the phase (before start, running, stopped): returns the first one that was accepted.
+// A state exists when newState() created it; state 0 that was never created is only a route target / handler result, not a state
+// that can carry routes, handlers or a sub-machine (state_machine.h: "from_state_id, to_state_id: fails when the state does not exist").
+static std::string bad_defs(size_t k) {
+  const MachD &d = TAB[G.nodes[k].def]; StateMachine *m = G.sm[k]; int node = (int)k;
+  StateMachine::ActionFunc ga = ghost_action(node); StateMachine::EventFunc gh = ghost_handler(node);
+  for (int s = 1; s <= d.n; s++) if (NS(m, s, ga, ga)) return "newState-of-an-existing-state";
+  if (d.term_def && NS(m, 0, ga, ga)) return "newState-of-the-existing-state-0";
+  if (AR(m, 9, 0, 1, nullptr, ga)) return "addRoute-from-a-state-that-does-not-exist";
+  if (AR(m, 1, 0, 9, nullptr, ga)) return "addRoute-to-a-state-that-does-not-exist";
+  if (AE(m, 9, 0, gh)) return "addEvent-on-a-state-that-does-not-exist";
+  if (SS(m, 9, G.spare)) return "setSubStateMachine-on-a-state-that-does-not-exist";
+  if (!d.term_def) {
+    if (AR(m, 0, 0, 1, nullptr, ga)) return "addRoute-from-state-0-that-was-never-created";
+    if (AE(m, 0, 0, gh)) return "addEvent-on-state-0-that-was-never-created";
+    if (SS(m, 0, G.spare)) return "setSubStateMachine-on-state-0-that-was-never-created";
+  }
+  return "";
+}
+// Valid-looking definition calls issued from inside an action of the machine itself: the statement demands that they are rejected.
+// (setInitState / setStateChangedCallback return nothing and are not guarded by the code: not issued.)
+static std::string inner_defs(int node) {
+  const MachD &d = TAB[G.nodes[node].def]; StateMachine *m = G.sm[node];
+  StateMachine::ActionFunc ga = ghost_action(node); StateMachine::EventFunc gh = ghost_handler(node);
+  if (NS(m, 5, ga, ga)) return "newState";
+  for (int s = 1; s <= d.n; s++) { if (AR(m, s, 0, 1, nullptr, ga)) return "addRoute"; if (AE(m, s, 0, gh)) return "addEvent"; if (SS(m, s, G.spare)) return "setSubStateMachine"; }
+  return "";
+}
 
 // ---- real side: every callback of every generated machine ends here
 static void real_hook(const Hook *h, Event e) {
   StateMachine *m = G.sm[h->node];
-  token(h->node, h->kind, h->state, h->route, e.id, m->currentState(), m->lastState(), m->nextState(), m->isRunning(), m->isTerminated());
+  token(h->node, h->kind, h->state, h->route, e.id, e.extra == &g_cookie ? '+' : e.extra == nullptr ? 0 : '?', CUR(m), LAST(m), NEXT(m), m->isRunning(), m->isTerminated());
   if (h->kind == 'n') {
     if (h->node == 0 && G.in_restart && G.reent_depth == 0) { std::string w; if (!ledger_zero(&w) && G.balance_viol.empty()) G.balance_viol = "outermost machine was stopped inside restart() with entered-but-not-exited states:" + w; }
-    G.cnt[h->node][h->state]++;
+    if (ledgered(h->node, h->state)) G.cnt[h->node][h->state]++;
   } else if (h->kind == 'x') {
-    if (--G.cnt[h->node][h->state] < 0 && G.balance_viol.empty()) G.balance_viol = std::string("exit without enter: m") + char('a' + h->node) + ".S" + std::to_string(h->state);
+    if (ledgered(h->node, h->state) && --G.cnt[h->node][h->state] < 0 && G.balance_viol.empty()) G.balance_viol = std::string("exit without enter: m") + char('a' + h->node) + ".S" + std::to_string(h->state);
   }
   if (G.reent >= 0 && G.reent_depth == 0) {
     G.reent_depth++;
-    std::string snap = obs_real(h->node); size_t len = G.tr.size(); int r = -1;
-    switch (G.reent) { case START: r = m->start(); break; case RUN1: r = m->run(1); break; case RUN2: r = m->run(2); break; case STOP: m->stop(); break; case RESTART: r = m->restart(); break; }
+    std::string snap = obs_real(h->node), what; size_t len = G.tr.size(); int r = -1;
+    switch (G.reent) { case START: r = m->start(); break; case RUN1: r = m->run(1); break; case RUN2: r = m->run(2); break; case STOP: m->stop(); break; case RESTART: r = m->restart(); break;
+                       case RDEF: what = inner_defs(h->node); r = what.empty() ? 0 : 1; break; }
     bool changed = obs_real(h->node) != snap || G.tr.size() != len;
     if ((r == 1 || changed) && G.reent_viol.empty())
-      G.reent_viol = std::string("reentrant-") + (G.reent == RUN1 || G.reent == RUN2 ? "run" : CALLN[G.reent]) + "-accepted-in-" + KINDN(h->kind) + " machine m" + char('a' + h->node) + " before=" + snap + " after=" + obs_real(h->node) + " ret=" + std::to_string(r);
+      G.reent_viol = std::string("reentrant-") + (G.reent == RUN1 || G.reent == RUN2 ? "run" : G.reent == RDEF ? (what.empty() ? "definition-call" : what.c_str()) : CALLN[G.reent]) + "-accepted-in-" + KINDN(h->kind) + " machine m" + char('a' + h->node) + " before=" + snap + " after=" + obs_real(h->node) + " ret=" + std::to_string(r);
     G.tr += '!'; G.tr += G.reent == STOP ? '-' : r ? '1' : '0';
     G.reent_depth--;
   }
 }
 static bool guard_value(int kind, uint8_t &ctr) { if (kind == 1) return true; if (kind == 2) return false; return (ctr++ & 1) == 1; }
 
-static std::string build_real() {
-  for (auto *p : G.sm) delete p; G.sm.clear();
-  for (size_t k = 0; k < G.nodes.size(); k++) G.sm.push_back(new StateMachine);
-  const Hook *h = G.hooks.data(); bool ok = true;
-  for (size_t k = 0; k < G.nodes.size(); k++) {
-    const MachD &d = TAB[G.nodes[k].def]; StateMachine *m = G.sm[k];
-    if (d.init_explicit) m->setInitState(1);
-    for (int i = 0; i < d.n; i++) { int s = d.init_explicit ? d.n - i : i + 1; const Hook *he = h++, *hx = h++;
-      ok &= m->newState(s, [he](Event e) { real_hook(he, e); G.tr += ' '; }, [hx](Event e) { real_hook(hx, e); G.tr += ' '; }); }
-    // definition order is part of the quantifier ("every machine definition"): with C16_TERM_LATE the user-defined terminal
-    // state 0 is created AFTER the routes/handlers that refer to it (addRoute accepts target 0 before it exists)
-    static const bool term_late = getenv("C16_TERM_LATE") != nullptr;
-    const Hook *he0 = nullptr, *hx0 = nullptr;
-    if (d.term_def) { he0 = h++; hx0 = h++;
-      if (!term_late) ok &= m->newState(0, [he0](Event e) { real_hook(he0, e); G.tr += ' '; }, [hx0](Event e) { real_hook(hx0, e); G.tr += ' '; }); }
+static void make_hooks() {
+  G.hooks.clear(); G.hidx.assign(G.nodes.size(), HookIdx());
+  auto add = [](int n, char kind, int st, int rt) -> int { if (null_hook(n, kind, st, rt)) return -1; G.hooks.push_back(Hook{n, kind, st, rt}); return (int)G.hooks.size() - 1; };
+  for (size_t k = 0; k < G.nodes.size(); k++) { const MachD &d = TAB[G.nodes[k].def]; int n = (int)k; HookIdx &x = G.hidx[k]; memset(&x, -1, sizeof x);
+    for (int s = d.term_def ? 0 : 1; s <= d.n; s++) { x.en[s] = add(n, 'n', s, -1); x.ex[s] = add(n, 'x', s, -1); }
     for (int s = 1; s <= d.n; s++) { const StateD &S = d.st[s - 1];
-      for (int r = 0; r < S.nr; r++) { const Hook *hg = h++, *ha = h++; int gk = S.r[r].guard; uint8_t *ctr = &G.flip_real[k][s][r];
-        StateMachine::GuardFunc gf; if (gk) gf = [hg, gk, ctr](Event e) { real_hook(hg, e); bool v = guard_value(gk, *ctr); G.tr += v ? "=1 " : "=0 "; return v; };
-        ok &= m->addRoute(s, (int)S.r[r].ev, (int)S.r[r].to, gf, [ha](Event e) { real_hook(ha, e); G.tr += ' '; }); }
-      // lane C16_BAD_HANDLER: a handler that would decline (-1) returns 9 instead, an id that names no state of the machine
-      static const bool bad_handler = getenv("C16_BAD_HANDLER") != nullptr;
-      if (S.h_ev) { const Hook *hh = h++; int ret = (bad_handler && S.h_ret == -1) ? 9 : S.h_ret; ok &= m->addEvent(s, (int)S.h_ev, [hh, ret](Event e) { real_hook(hh, e); G.tr += ' '; return ret; }); }
-      if (S.h_any != -2) { const Hook *hh = h++; int ret = (bad_handler && S.h_any == -1) ? 9 : S.h_any; ok &= m->addEvent(s, 0, [hh, ret](Event e) { real_hook(hh, e); G.tr += ' '; return ret; }); }
-      if (G.nodes[k].sub[s] >= 0) ok &= m->setSubStateMachine(s, G.sm[G.nodes[k].sub[s]]); }
-    if (d.term_def && term_late) ok &= m->newState(0, [he0](Event e) { real_hook(he0, e); G.tr += ' '; }, [hx0](Event e) { real_hook(hx0, e); G.tr += ' '; });
-    int node = (int)k;
-    m->setStateChangedCallback([node](int f, int t, Event e) { Hook hc{node, 'c', f, t}; real_hook(&hc, e); G.tr += ' '; });
-  }
-  return ok ? "" : "definition call returned false";
+      for (int r = 0; r < S.nr; r++) { if (S.r[r].guard) x.g[s][r] = add(n, 'g', s, r); x.a[s][r] = add(n, 'a', s, r); }
+      if (S.h_ev) x.hs[s] = add(n, 'h', s, S.h_ev);
+      if (S.h_ev && L_TWO_H) x.h2[s] = add(n, 'h', s, 3 - S.h_ev);
+      if (S.h_any != -2) x.ha[s] = add(n, 'h', s, 0); } }
 }
-static void make_hooks() {   // same order as consumed in build_real
-  G.hooks.clear();
-  for (size_t k = 0; k < G.nodes.size(); k++) { const MachD &d = TAB[G.nodes[k].def]; int n = (int)k;
-    for (int i = 0; i < d.n; i++) { int s = d.init_explicit ? d.n - i : i + 1; G.hooks.push_back(Hook{n, 'n', s, -1}); G.hooks.push_back(Hook{n, 'x', s, -1}); }
-    if (d.term_def) { G.hooks.push_back(Hook{n, 'n', 0, -1}); G.hooks.push_back(Hook{n, 'x', 0, -1}); }
-    for (int s = 1; s <= d.n; s++) { const StateD &S = d.st[s - 1];
-      for (int r = 0; r < S.nr; r++) { G.hooks.push_back(Hook{n, 'g', s, r}); G.hooks.push_back(Hook{n, 'a', s, r}); }
-      if (S.h_ev) G.hooks.push_back(Hook{n, 'h', s, S.h_ev});
-      if (S.h_any != -2) G.hooks.push_back(Hook{n, 'h', s, 0}); } }
+static StateMachine::ActionFunc mk_action(int hi) { if (hi < 0) return nullptr; const Hook *h = &G.hooks[hi]; return [h](Event e) { real_hook(h, e); G.tr += ' '; }; }
+static StateMachine::EventFunc mk_handler(int hi, int ret) { const Hook *h = &G.hooks[hi]; return [h, ret](Event e) { real_hook(h, e); G.tr += ' '; return ret; }; }
+
+struct Ref; extern Ref REF;
+static std::string prelude_two_phase();
+// Build the real hierarchy. Order of the definition calls of one machine:
+//   default        [setInitState] states [state 0] routes handlers sub-machines callback
+//   C16_TERM_LATE  states routes handlers sub-machines [state 0] [setInitState] callback
+//   C16_TWO_PHASE  states | start();stop() on every machine | [state 0] routes handlers sub-machines [setInitState] callback
+static std::string build_real() {
+  for (auto *p : G.sm) delete p; G.sm.clear(); delete G.spare;
+  G.spare = new StateMachine; G.spare->newState(1, ghost_action(15), ghost_action(15));
+  for (size_t k = 0; k < G.nodes.size(); k++) G.sm.push_back(new StateMachine);
+  bool ok = true;
+  for (int phase = L_TWO_PHASE ? 1 : 0; phase <= (L_TWO_PHASE ? 2 : 0); phase++) {
+    for (size_t k = 0; k < G.nodes.size(); k++) {
+      const MachD &d = TAB[G.nodes[k].def]; StateMachine *m = G.sm[k]; const HookIdx &x = G.hidx[k]; int node = (int)k;
+      auto init = [&] { if (d.init_explicit == 1) SI(m, 1); else if (d.init_explicit == 2) SI(m, 7); else if (d.init_explicit == 3) SI(m, 0); };
+      auto states = [&] { for (int i = 0; i < d.n; i++) { int s = d.init_explicit == 1 ? d.n - i : i + 1; ok &= NS(m, s, mk_action(x.en[s]), mk_action(x.ex[s])); } };
+      auto term = [&] { if (d.term_def) ok &= NS(m, 0, mk_action(x.en[0]), mk_action(x.ex[0])); };
+      auto rest = [&] {
+        for (int s = 1; s <= d.n; s++) { const StateD &S = d.st[s - 1];
+          for (int r = 0; r < S.nr; r++) { int gk = S.r[r].guard; uint8_t *ctr = &G.flip_real[k][s][r];
+            StateMachine::GuardFunc gf; if (gk) { const Hook *hg = &G.hooks[x.g[s][r]]; gf = [hg, gk, ctr](Event e) { real_hook(hg, e); bool v = guard_value(gk, *ctr); G.tr += v ? "=1 " : "=0 "; return v; }; }
+            ok &= AR(m, s, (int)S.r[r].ev, (int)S.r[r].to, gf, mk_action(x.a[s][r])); }
+          // lane C16_BAD_HANDLER: a handler that would decline (-1) returns 9 instead, an id that names no state of the machine
+          if (S.h_ev && L_TWO_H) ok &= AE(m, s, 3 - S.h_ev, mk_handler(x.h2[s], -1));      // second key in the handler table; declines
+          if (S.h_ev) ok &= AE(m, s, (int)S.h_ev, mk_handler(x.hs[s], (L_BAD_HANDLER && S.h_ret == -1) ? 9 : S.h_ret));
+          if (S.h_any != -2) ok &= AE(m, s, 0, mk_handler(x.ha[s], (L_BAD_HANDLER && S.h_any == -1) ? 9 : S.h_any));
+          if (G.nodes[k].sub[s] >= 0) ok &= SS(m, s, G.sm[G.nodes[k].sub[s]]); } };
+      auto cb = [&] { if (!null_hook(node, 'c', 0, 0)) m->setStateChangedCallback([node](int f, int t, Event e) { Hook hc{node, 'c', f, t}; real_hook(&hc, e); G.tr += ' '; }); };
+      if (phase == 0) { if (!L_TERM_LATE) { init(); states(); term(); rest(); } else { states(); rest(); term(); init(); } cb(); }
+      else if (phase == 1) states();
+      else { term(); rest(); init(); cb(); }
+    }
+    if (phase == 1) { std::string e = prelude_two_phase(); if (!e.empty()) return e; }
+  }
+  if (!ok) return "harness-build-failed a definition call of the generated machine returned false";
+  for (size_t k = 0; k < G.nodes.size(); k++) { size_t len = G.tr.size(); std::string w = bad_defs(k);
+    if (!w.empty()) return "rejected-definition-call-accepted-" + w + " on machine m" + char('a' + k) + " right after its definition (never started)";
+    if (G.tr.size() != len) return "rejected-definition-call-ran-a-callback " + G.tr; }
+  return "";
 }
 
 // ------------------------------------------------------------------------------------------------
@@ -241,40 +351,45 @@ struct Ref {
   int cur[16], last[16], next[16]; bool running[16];
   void reset() { for (int i = 0; i < 16; i++) { cur[i] = last[i] = next[i] = -1; running[i] = false; } }
   const MachD &def(int k) const { return TAB[G.nodes[k].def]; }
+  // during the prelude of lane C16_TWO_PHASE only the states exist: no sub-machines, initial state = first registered state
+  int sub_of(int k, int st) const { return G.prelude ? -1 : G.nodes[k].sub[st]; }
+  int init_state(int k) const { const MachD &d = def(k); if (G.prelude) return d.init_explicit == 1 ? d.n : 1; return d.init_explicit >= 2 ? -1 : 1; }   // -1: the initial state does not exist
   void act(int k, char kind, int st, int rt, int ev) {      // an observable action of machine k
-    token(k, kind, st, rt, ev, cur[k], last[k], next[k], running[k], cur[k] == 0);
+    if (null_hook(k, kind, st, rt)) return;                  // no such callback in this lane: nothing observable (and nobody to make an inner call)
+    token(k, kind, st, rt, ev, ev != 0 ? '+' : 0, cur[k], last[k], next[k], running[k], cur[k] == 0);   // run(e, payload) hands the payload to every callback of the hierarchy; start/stop pass Event()
     if (G.reent >= 0) { G.tr += '!'; G.tr += G.reent == STOP ? '-' : '0'; }    // calls from inside an action are rejected, nothing happens
     if (kind != 'g') G.tr += ' ';
   }
   bool has_actions(int k, int st) const { return st >= 1 || (st == 0 && def(k).term_def); }
   bool start(int k) {
     if (running[k]) return false;
-    running[k] = true; cur[k] = 1;                          // state 1 is the initial state of every generated machine
-    act(k, 'n', 1, -1, 0);
-    int sb = G.nodes[k].sub[1]; if (sb >= 0) start(sb);      // R2: no event forwarded on start
+    int is = init_state(k); if (is < 0) return false;       // no initial state: start fails, the machine is not running
+    running[k] = true; cur[k] = is;
+    act(k, 'n', is, -1, 0);
+    int sb = sub_of(k, is); if (sb >= 0) start(sb);          // R2: no event forwarded on start
     return true;
   }
   void stop(int k) {
     if (!running[k]) return;
     int c = cur[k];
-    if (c >= 1) { int sb = G.nodes[k].sub[c]; if (sb >= 0 && running[sb]) stop(sb); }   // statement: balanced at every level; R4: inner first
+    if (c >= 1) { int sb = sub_of(k, c); if (sb >= 0 && running[sb]) stop(sb); }   // statement: balanced at every level; R4: inner first
     if (has_actions(k, c)) act(k, 'x', c, -1, 0);
     cur[k] = -1; running[k] = false;
   }
   bool run(int k, int e) {
     if (!running[k]) return false;
     int c = cur[k]; if (c == 0) return false;               // terminal state has no routes
-    int sb = G.nodes[k].sub[c];
+    int sb = sub_of(k, c);
     if (sb >= 0 && running[sb]) {                           // events go to the active sub-machine until it has terminated
       bool r = run(sb, e);
       if (cur[sb] != 0) return r;                           // R3
       stop(sb);                                             // R4
     }
-    const StateD &S = def(k).st[c - 1]; int target = -1, ri = -1;
-    if (S.h_ev == e) { act(k, 'h', c, e, e); target = S.h_ret; }                      // a handler may pick the target (R1)
-    else if (S.h_any != -2) { act(k, 'h', c, 0, e); target = S.h_any; }
-    static const bool bad_handler = getenv("C16_BAD_HANDLER") != nullptr;
-    if (bad_handler && target == -1 && (S.h_ev == e || S.h_any != -2)) return false;   // the handler named a state that does not exist: the event is dropped, nothing changes, the machine stays usable
+    const StateD &S = def(k).st[c - 1]; int target = -1, ri = -1; bool handled = false;
+    if (S.h_ev == e) { act(k, 'h', c, e, e); target = S.h_ret; handled = true; }                      // a handler may pick the target (R1)
+    else if (L_TWO_H && S.h_ev) { act(k, 'h', c, e, e); handled = false; }                            // lane: the handler for the other specific event declines (and hides the any-handler, R1)
+    else if (S.h_any != -2) { act(k, 'h', c, 0, e); target = S.h_any; handled = true; }
+    if (L_BAD_HANDLER && target == -1 && handled) return false;   // the handler named a state that does not exist: the event is dropped, nothing changes, the machine stays usable
     if (target == -1) {                                     // first route in registration order whose event matches and whose guard holds
       for (int i = 0; i < S.nr && ri < 0; i++) {
         if (S.r[i].ev != 0 && S.r[i].ev != e) continue;
@@ -291,14 +406,26 @@ struct Ref {
     cur[k] = target; next[k] = -1;
     if (has_actions(k, target)) act(k, 'n', target, -1, e);
     act(k, 'c', c, target, e);                              // state-changed notification
-    if (target >= 1) { int ns = G.nodes[k].sub[target]; if (ns >= 0) { start(ns); run(ns, e); } }   // R2
+    if (target >= 1) { int ns = sub_of(k, target); if (ns >= 0) { start(ns); run(ns, e); } }   // R2 (a sub-machine that cannot start stays stopped: the state then behaves as one without sub-machine)
     return true;
   }
   std::string obs(int k) const { std::string s; put_int(s, cur[k]); s += ','; put_int(s, last[k]); s += ','; put_int(s, next[k]); s += running[k] ? 'R' : 'S'; if (cur[k] == 0) s += 'T'; return s; }
 } REF;
 
+// lane C16_TWO_PHASE: only the states are defined so far; every machine of the hierarchy is started and stopped once on its own
+static std::string prelude_two_phase() {
+  G.prelude = true; std::string err;
+  for (size_t k = 0; k < G.nodes.size() && err.empty(); k++) {
+    G.tr.clear(); int r1 = G.sm[k]->start(); G.sm[k]->stop(); std::string t1; t1.swap(G.tr);
+    int r2 = REF.start((int)k); REF.stop((int)k); std::string t2; t2.swap(G.tr);
+    if (t1 != t2 || r1 != r2 || obs_real((int)k) != REF.obs((int)k))
+      err = std::string("diverge-two-phase-prelude machine m") + char('a' + k) + " (states only, no routes yet) start();stop() REAL: " + t1 + "=> ret=" + std::to_string(r1) + " " + obs_real((int)k) + " REF: " + t2 + "=> ret=" + std::to_string(r2) + " " + REF.obs((int)k);
+  }
+  G.prelude = false; G.tr.clear(); return err;
+}
+
 // ------------------------------------------------------------------------------------------------
-static std::string show_op(const Op &o) { std::string s = CALLN[o.call]; if (o.reent >= 0) s += std::string("+every-action-calls:") + CALLN[o.reent]; return s; }
+static std::string show_op(const Op &o) { std::string s = CALLN[o.call]; if (o.reent >= 0) s += std::string("+every-action-calls:") + REENTN[o.reent]; return s; }
 static std::string show_hist(const std::vector<Op> &h) { std::string s; for (auto &o : h) { if (!s.empty()) s += ' '; s += show_op(o); } return s.empty() ? "<empty>" : s; }
 static int tok_depth(const std::string &t) { int n = t[0] - 'a'; return n >= 0 && n < (int)G.nodes.size() ? G.nodes[n].depth : 0; }
 // number of exit / enter actions of sub-machines (nodes b,c,..) in a trace segment
@@ -308,31 +435,44 @@ struct EvalOut { std::string canon, viol; uint64_t trace_hash; std::string trace
 static bool g_keep_trace = false;
 static std::map<std::string, size_t> g_sigcount;   // violations per signature in this process
 
+// every history is followed by this fixed epilogue (not part of the state key, the trace hash or the history that is expanded)
+static const Op EPILOGUE[] = {{RESTART, -1}, {STOP, -1}};
+static size_t g_epilogue = 2;     // C16_NO_EPILOGUE=1 switches it off (measurements only)
 // Replay a call sequence on a fresh real hierarchy and a fresh reference, compare after every call.
 static EvalOut evaluate(int top, const std::vector<Op> &hist) {
   EvalOut out; out.trace_hash = 1469598103934665603ull;
   memset(G.cnt, 0, sizeof G.cnt); memset(G.flip_real, 0, sizeof G.flip_real); memset(G.flip_ref, 0, sizeof G.flip_ref);
   G.reent = -1; G.reent_depth = 0; G.reent_viol.clear(); G.balance_viol.clear(); G.in_restart = false;
-  std::string berr = build_real(); REF.reset();
-  if (!berr.empty()) { out.viol = "harness-build-failed " + berr; return out; }
+  G.tr.clear(); REF.reset(); std::string berr = build_real();
+  if (!berr.empty()) {
+    std::string s0 = berr.substr(0, berr.find(' ')); if (g_sigcount[s0] >= 3) { out.viol = s0; return out; }
+    out.viol = berr + " machine=" + show_mach(TAB[top]) + " lane=" + lanes_text(); return out; }
   StateMachine *m = G.sm[0]; size_t nn = G.nodes.size();
-  for (size_t i = 0; i < hist.size(); i++) {
-    const Op &op = hist[i]; int r1 = -1, r2 = -1;
+  auto canon = [&] {   // canonical state: all observers of every machine + flip-flop parities + ledger
+    for (size_t k = 0; k < nn; k++) { out.canon += obs_real(k); out.canon += '|'; }
+    for (size_t k = 0; k < nn; k++) for (int s = 1; s < 4; s++) for (int r = 0; r < 3; r++) out.canon += char('0' + (G.flip_real[k][s][r] & 1));
+    for (size_t k = 0; k < nn; k++) for (int s = 0; s < 4; s++) out.canon += char('0' + G.cnt[k][s]); };
+  for (size_t i = 0; i < hist.size() + g_epilogue; i++) {
+    bool epi = i >= hist.size(); if (i == hist.size()) canon();
+    const Op &op = epi ? EPILOGUE[i - hist.size()] : hist[i]; int r1 = -1, r2 = -1; std::string defwhat;
     G.tr.clear(); G.reent = op.reent; G.in_restart = op.call == RESTART;
-    switch (op.call) { case START: r1 = m->start(); break; case RUN1: r1 = m->run(1); break; case RUN2: r1 = m->run(2); break; case STOP: m->stop(); break; case RESTART: r1 = m->restart(); break; }
+    switch (op.call) { case START: r1 = m->start(); break; case RUN1: r1 = RUN(m, 1); break; case RUN2: r1 = RUN(m, 2); break; case STOP: m->stop(); break; case RESTART: r1 = m->restart(); break;
+                       case DEFBAD: r1 = 0; for (size_t k = 0; k < nn && defwhat.empty(); k++) { defwhat = bad_defs(k); if (!defwhat.empty()) { r1 = 1; defwhat += std::string("-on-a-") + (REF.running[k] ? "running" : "stopped") + "-machine"; } } break; }
     G.in_restart = false; std::string t1; t1.swap(G.tr);
-    switch (op.call) { case START: r2 = REF.start(0); break; case RUN1: r2 = REF.run(0, 1); break; case RUN2: r2 = REF.run(0, 2); break; case STOP: REF.stop(0); break; case RESTART: REF.stop(0); r2 = REF.start(0); break; }
+    switch (op.call) { case START: r2 = REF.start(0); break; case RUN1: r2 = REF.run(0, 1); break; case RUN2: r2 = REF.run(0, 2); break; case STOP: REF.stop(0); break; case RESTART: REF.stop(0); r2 = REF.start(0); break;
+                       case DEFBAD: r2 = 0; break; }     // every one of them is rejected: nothing happens
     G.reent = -1; std::string t2; t2.swap(G.tr);
     std::string o1, o2; for (size_t k = 0; k < nn; k++) { o1 += obs_real(k); o1 += ' '; o2 += REF.obs(k); o2 += ' '; }
-    std::string step = std::string(CALLN[op.call]) + (op.reent >= 0 ? std::string("+") + CALLN[op.reent] : "") + ": " + t1 + "=> " + std::to_string(r1) + " | " + o1 + "; ";
-    for (char c : step) { out.trace_hash ^= (uint8_t)c; out.trace_hash *= 1099511628211ull; }
-    if (g_keep_trace) out.trace += step;
+    std::string step = std::string(CALLN[op.call]) + (op.reent >= 0 ? std::string("+") + REENTN[op.reent] : "") + ": " + t1 + "=> " + std::to_string(r1) + " | " + o1 + "; ";
+    if (!epi) { for (char c : step) { out.trace_hash ^= (uint8_t)c; out.trace_hash *= 1099511628211ull; }
+      if (g_keep_trace) out.trace += step; }
     // ---- oracles
     std::string sig, bal;
     bool top_stopped = !m->isRunning();
     if (G.balance_viol.empty() && top_stopped && !ledger_zero(&bal)) G.balance_viol = "outermost machine is stopped with entered-but-not-exited states:" + bal;
     bool same = t1 == t2 && r1 == r2 && o1 == o2;
     if (!G.reent_viol.empty()) sig = G.reent_viol;
+    else if (!defwhat.empty()) sig = "rejected-definition-call-accepted-" + defwhat;
     else if (!same || !G.balance_viol.empty()) {
       bool sub_left = false;     // a sub-machine the reference has stopped is still running / was not exited
       for (size_t k = 1; k < nn; k++) if (G.sm[k]->isRunning() && !REF.running[k]) sub_left = true;
@@ -375,16 +515,13 @@ static EvalOut evaluate(int top, const std::vector<Op> &hist) {
     if (!sig.empty()) {
       std::string s0 = sig.substr(0, sig.find(' '));
       if (g_sigcount[s0] >= 3) { out.viol = s0; return out; }     // already printed three replays of this signature: count only
-      out.viol = sig + " machine=" + show_mach(TAB[top]) + " calls=[" + show_hist(hist) + "] diverges at call #" + std::to_string(i + 1) + " " + show_op(op) +
+      out.viol = sig + " machine=" + show_mach(TAB[top]) + " lane=" + lanes_text() + " calls=[" + show_hist(hist) + (g_epilogue ? " | epilogue: restart stop" : "") + "] diverges at call #" + std::to_string(i + 1) + " " + show_op(op) + (epi ? " (epilogue)" : "") +
                  " REAL: " + t1 + "=> ret=" + std::to_string(r1) + " state(cur,last,next,Running/Stopped,Terminated per machine a,b,..)= " + o1 +
                  "REF: " + t2 + "=> ret=" + std::to_string(r2) + " state= " + o2 + (G.balance_viol.empty() ? "" : "BALANCE: " + G.balance_viol);
       return out;
     }
   }
-  // canonical state: all observers of every machine + flip-flop parities + ledger
-  for (size_t k = 0; k < nn; k++) { out.canon += obs_real(k); out.canon += '|'; }
-  for (size_t k = 0; k < nn; k++) for (int s = 1; s < 4; s++) for (int r = 0; r < 3; r++) out.canon += char('0' + (G.flip_real[k][s][r] & 1));
-  for (size_t k = 0; k < nn; k++) for (int s = 0; s < 4; s++) out.canon += char('0' + G.cnt[k][s]);
+  if (!g_epilogue) canon();
   return out;
 }
 
@@ -396,8 +533,9 @@ int main(int argc, char **argv) {
   }
   size_t part = argc > 1 ? atoi(argv[1]) : 0, nparts = argc > 2 ? atoi(argv[2]) : 1, cap = argc > 3 ? atol(argv[3]) : 2000;
   size_t depth = argc > 4 ? atoi(argv[4]) : 5; DMAX = argc > 5 ? atoi(argv[5]) : 2;
-  const char *hashfile = argc > 6 && argv[6][0] != '-' ? argv[6] : nullptr; bool flat_only = argc > 7 && !strcmp(argv[7], "flat");
+  const char *hashfile = argc > 6 && argv[6][0] != '-' ? argv[6] : nullptr; bool flat_only = argc > 7 && !strcmp(argv[7], "flat"), deep_only = argc > 7 && !strcmp(argv[7], "deep");
   if (flat_only) DMAX = 1;
+  read_lanes(); if (getenv("C16_NO_EPILOGUE")) g_epilogue = 0;
   hx::install_crash_reporter("C16-crash");
   double deadline = hx::deadline_from_env(600);
 
@@ -405,18 +543,21 @@ int main(int argc, char **argv) {
   std::vector<size_t> sel; size_t complete_w = 0, sel_before_last = 0, last_level_total = 0; int w = 1;
   for (; sel.size() < cap && w <= 12; w++) {
     sel_before_last = sel.size(); size_t b = TAB.size(); gen_level(w); last_level_total = 0;
-    for (size_t i = b; i < TAB.size(); i++) { int fe = 0; first_event(TAB[i], fe); if (fe == 2) continue; last_level_total++; if (sel.size() < cap) sel.push_back(i); }
+    for (size_t i = b; i < TAB.size(); i++) { int fe = 0; first_event(TAB[i], fe); if (fe == 2) continue; if (deep_only && TAB[i].depth < 3) continue; last_level_total++; if (sel.size() < cap) sel.push_back(i); }
     if (sel.size() - sel_before_last == last_level_total) complete_w = w;
   }
   int last_w = w - 1; double t_gen = hx::now_s();
   if (part == 0) {
     printf("@INFO enumeration took %.1fs, table of %zu machine definitions\n", t_gen - (deadline - (getenv("VERIF_DEADLINE_S") ? atof(getenv("VERIF_DEADLINE_S")) : 600)), TAB.size());
-    printf("@INFO machines: %zu selected; weights 1..%zu complete; weight %d: %zu of %zu canonical machines (nesting depth <= %d)\n", sel.size(), complete_w, last_w, sel.size() - sel_before_last, last_level_total, DMAX);
-    printf("@CAP machine cap %zu: every canonical machine of weight <= %zu is selected; of weight %d only %zu of %zu (interleaved over all structural shapes); heavier machines (<=3 states, <=3 routes/state, depth <= %d) are not enumerated\n",
-           cap, complete_w, last_w, sel.size() - sel_before_last, last_level_total, DMAX);
+    const char *what = deep_only ? "canonical machines of nesting depth 3" : "canonical machines";
+    printf("@INFO lane%s: machines: %zu selected; weights 1..%zu complete; weight %d: %zu of %zu %s (nesting depth <= %d)\n", lanes_text().c_str(), sel.size(), complete_w, last_w, sel.size() - sel_before_last, last_level_total, what, DMAX);
+    printf("@CAP lane%s: machine cap %zu: every one of the %s of weight <= %zu is selected; of weight %d only %zu of %zu (interleaved over all structural shapes); heavier machines (<=3 states, <=3 routes/state, depth <= %d) are not enumerated\n",
+           lanes_text().c_str(), cap, what, complete_w, last_w, sel.size() - sel_before_last, last_level_total, DMAX);
   }
 
-  std::vector<Op> menu; for (int c = 0; c < 5; c++) menu.push_back(Op{c, -1}); for (int c = 0; c < 5; c++) for (int r = 0; r < 5; r++) menu.push_back(Op{c, r});
+  std::vector<Op> menu; for (int c = 0; c < 5; c++) menu.push_back(Op{c, -1}); menu.push_back(Op{DEFBAD, -1});
+  for (int c = 0; c < 5; c++) for (int r = 0; r < 5; r++) menu.push_back(Op{c, r});
+  for (int c = 0; c < 4; c++) menu.push_back(Op{c, RDEF});   // restart = stop + start adds no new action context for the inner definition calls
   size_t machines = 0, flat = 0, nested = 0, states = 0, transitions = 0, violations = 0, viol_flat = 0, viol_nested = 0, redet = 0, reent_evals = 0, maxdepth = 0, fixpoints = 0, samples = 0;
   std::map<std::string, size_t> &sigcount = g_sigcount; std::unordered_set<uint64_t> hashes; size_t next_outcome = 1; bool capped = false;
   for (size_t j = part; j < sel.size() && !capped; j += nparts) {
@@ -425,7 +566,7 @@ int main(int argc, char **argv) {
     bool is_flat = G.nodes.size() == 1; machines++; (is_flat ? flat : nested)++;
     std::string mtxt = show_mach(TAB[top]);
     std::unordered_set<std::string> seen; std::vector<std::vector<Op>> layer(1), next;
-    { EvalOut e0 = evaluate(top, layer[0]); seen.insert(e0.canon); states++; if (!e0.viol.empty()) { violations++; printf("@VIOL sig=%s :: %s\n", e0.viol.substr(0, e0.viol.find(' ')).c_str(), e0.viol.c_str()); continue; } }
+    { EvalOut e0 = evaluate(top, layer[0]); seen.insert(e0.canon); states++; if (!e0.viol.empty()) { violations++; (is_flat ? viol_flat : viol_nested)++; std::string s0 = e0.viol.substr(0, e0.viol.find(' ')); if (++sigcount[s0] <= 3) printf("@VIOL sig=%s :: %s\n", s0.c_str(), e0.viol.c_str()); continue; } }
     std::vector<Op> lastnew; size_t d = 0;
     for (; d < depth && !layer.empty(); d++) {
       next.clear();
